@@ -409,6 +409,111 @@ def shared_names_case(seed_str):
     return {"prog": prog, "text": text, "lm": lm, "meta": {"family": "wf-shared-names", "seed": seed_str}}
 
 
+def loop_scope_case(seed_str):
+    """well-formed: nested counting loops that REUSE the counting variable, an [i] path as call
+    input in the outer body after (and before, and inside) the inner loop; control variants
+    with different variables, parallel inner loops, three levels"""
+    rng = random.Random(seed_str)
+    P = faults.P
+    q = ("service", "Sq", [], [("q", faults.FQ)])
+    variant = rng.choice(["same_after", "same_after", "same_before_after", "diff", "three", "inner_parallel", "in_cond"])
+    outer = rng.choice(["i", "k", "idx"])
+    inner = outer if variant != "diff" else outer + "2"
+
+    def use(v, name):
+        c = rng.random()
+        if c < 0.4:
+            return ("service", name, [P("q", "items", "@" + v)], [])
+        if c < 0.7:
+            return ("service", name, [P("q", "items", "@" + v, "n"), P("q", "fixed", "@" + v)], [])
+        return ("call", "fcallee", [("var", "q"), P("q", "items", "@" + v, "n")], [("x" + name, faults.FIN)])
+
+    inner_loop = ("count", False, inner, rng.choice([("int", 2), ("path", "q", [("f", "count")])]), [use(inner, "Sin")])
+    if variant == "inner_parallel":
+        inner_loop = ("count", True, inner, ("int", 2), [("call", "fcallee", [("var", "q"), P("q", "items", "@" + inner, "n")],
+                                                         [("xp", faults.FIN)])])
+    body = [inner_loop, use(outer, "Safter")]
+    if variant == "same_before_after":
+        body = [use(outer, "Sbefore")] + body + [use(outer, "Safter2")]
+    if variant == "three":
+        body = [("count", False, outer, ("int", 1), [inner_loop, use(outer, "Smid")]), use(outer, "Safter")]
+    if variant == "in_cond":
+        body = [("cond", ("bool", True), [inner_loop], [inner_loop]), use(outer, "Safter")]
+    stmts = [q, ("count", False, outer, ("int", 2), body)]
+    prog = {"structs": [dict(x) for x in faults.SUPPORT_STRUCTS],
+            "tasks": [{"name": "productionTask", "ins": [], "body": stmts, "outs": []}, gen_check.clone(faults.SUPPORT_TASK)]}
+    if rng.random() < 0.5:   # the same in a called task
+        prog["tasks"][0]["body"] = [("call", "tloops", [], [])]
+        prog["tasks"].append({"name": "tloops", "ins": [], "body": stmts, "outs": []})
+    lm = {}
+    text = gen_check.render(prog, gen_check.rand_layout(rng), lm)
+    return {"prog": prog, "text": text, "lm": lm, "meta": {"family": "wf-loop-scopes", "variant": variant, "seed": seed_str}}
+
+
+def nested_array_case(seed_str):
+    """a struct literal in which an array directly contains arrays (the implementation skips the
+    inner lists; whatever the verdict, it has to be a verdict)"""
+    rng = random.Random(seed_str)
+    n = faults.n
+    inner = ("arr", [n(rng.randint(0, 9)) for _ in range(rng.randint(0, 2))])
+    which = rng.choice(["all_nested", "mixed_tail", "mixed_head", "nested_in_nested", "struct_array", "strings", "deep"])
+    over = {}
+    if which == "all_nested":
+        over["nums"] = ("arr", [inner, ("arr", [n(3), n(4)])])
+    elif which == "mixed_tail":
+        over["nums"] = ("arr", [n(1), n(2), inner])
+    elif which == "mixed_head":
+        over["nums"] = ("arr", [inner, n(1), n(2)])
+    elif which == "nested_in_nested":
+        over["inner"] = faults.fin_json(pair=("arr", [n(1), ("arr", [inner]), n(2)]))
+    elif which == "struct_array":
+        over["items"] = ("arr", [faults.fin_json(), ("arr", [faults.fin_json()]), inner])
+    elif which == "strings":
+        over["nums"] = ("arr", [("arr", [("str", "a"), ("str", "b")]), ("arr", [("bool", True)])])
+    else:
+        over["fixed"] = ("arr", [faults.fin_json(), faults.fin_json(), ("arr", [("arr", [("arr", [])])])])
+    lit = ("lit", "Fq", faults.fq_json(**over))
+    stmt = rng.choice([("service", "Sn", [lit], []),
+                       ("call", "fcallee", [lit, ("path", "q", [("f", "count")])], [("x1", faults.FIN)])])
+    body = [("service", "Sq", [], [("q", faults.FQ)]), stmt]
+    if rng.random() < 0.5:
+        body = [("count", False, "w", ("int", 1), [("cond", ("bool", False), [("service", "Sk", [], [])], body)])]
+    prog = {"structs": [dict(x) for x in faults.SUPPORT_STRUCTS],
+            "tasks": [{"name": "productionTask", "ins": [], "body": body, "outs": []}, gen_check.clone(faults.SUPPORT_TASK)]}
+    lm = {}
+    text = gen_check.render(prog, gen_check.rand_layout(rng), lm)
+    return {"prog": prog, "text": text, "lm": lm, "meta": {"family": "nested-array-literal", "which": which, "seed": seed_str}}
+
+
+def has_nested_array_literal(prog):
+    """shape predicate of the (fixed) finding D28: some struct literal has an array that directly contains an array"""
+    def walk_json(j):
+        if j[0] == "arr":
+            return any(x[0] == "arr" for x in j[1]) or any(walk_json(x) for x in j[1])
+        if j[0] == "obj":
+            return any(walk_json(v) for _, v in j[1])
+        return False
+
+    def params(ins):
+        return any(p[0] == "lit" and walk_json(p[2]) for p in ins)
+
+    def walk(ss):
+        for s in ss:
+            k = s[0]
+            if k in ("service", "call") and params(s[2]):
+                return True
+            if k == "parallel" and any(params(c[1]) for c in s[1]):
+                return True
+            if k == "while" and walk(s[2]):
+                return True
+            if k == "count" and walk(s[4]):
+                return True
+            if k == "cond" and (walk(s[2]) or walk(s[3])):
+                return True
+        return False
+    return any(walk(t["body"]) for t in prog["tasks"])
+
+
 def support_case(seed_str):
     """the fault-free host of the mutants: must be certified well-formed and accepted"""
     rng = random.Random(seed_str)
@@ -491,6 +596,8 @@ def slice_C11(pid, cfg, tier, seed, workdir, rep, stats, findings):
         cases.append(wf_outside_guard("%d/%s/out/%d" % (seed, pid, i)))
     for i in range(max(24, n // 6)):
         cases.append(shared_names_case("%d/%s/shared/%d" % (seed, pid, i)))
+    for i in range(max(24, n // 6)):
+        cases.append(loop_scope_case("%d/%s/scopes/%d" % (seed, pid, i)))
     stats["generated"] += len(cases)
     evaluate(cases, workdir)
     samples = []
@@ -574,9 +681,9 @@ def slice_C10(pid, cfg, tier, seed, workdir, rep, stats, findings):
         stats["class:" + f[:3]] += 1
         stats["depth:%d" % c["meta"]["depth"]] += 1
         stats["pos:" + c["meta"]["pos"].split("/")[0]] += 1
-        if c["shapes"]["wf_dec"]:
-            # the injector did not produce a fault: machinery problem, reported
-            rep.violation(payload(pid, c, "injector", "mutant is certified well-formed"), "no-failing-input-found")
+        if c["shapes"]["wf_dec"] != (f in faults.WF_BUT_REJECTED):
+            # the injector did not produce what the catalogue says: machinery problem, reported
+            rep.violation(payload(pid, c, "injector", "mutant: wf_dec = %s" % c["shapes"]["wf_dec"]), "no-failing-input-found")
             continue
         ok = corr_check(pid, c, rep, stats)
         why = mon_C10(c)
@@ -688,6 +795,17 @@ def fuzz_texts(rng, bases, n):
             else:
                 ls[p] = " " * rng.randint(0, 12) + ls[p].lstrip()
             out.append(("line", "\n".join(ls)))
+        elif c < 0.82:    # JSON arrays nested in arrays
+            arrs = list(re.finditer(r"\[([^\[\]\n]*)\]", base[base.find("{"):] if "{" in base else ""))
+            if arrs:
+                off = base.find("{")
+                m = rng.choice(arrs)
+                inner = m.group(1)
+                repl = rng.choice(["[[%s]]" % inner, "[%s[1, 2]]" % (inner + ", " if inner.strip() else ""),
+                                   "[[%s], [%s]]" % (inner, inner), "[[[]]]", "[[%s], 3]" % inner])
+                out.append(("jsonnest", base[:off + m.start()] + repl + base[off + m.end():]))
+            else:
+                out.append(("jsonnest", base + '\nTask tj\n    Sj\n        In\n            Fq\n                {"nums": [[1, 2], [3]]}\nEnd\n'))
         elif c < 0.9:     # random token sequences
             out.append(("tokens", " ".join(rng.choice(TOK) for _ in range(rng.randint(0, 60)))))
         else:             # random bytes (decoded permissively)
@@ -812,6 +930,7 @@ def slice_C16(pid, cfg, tier, seed, workdir, rep, stats, findings):
     # (1) programs: well-formed, single-fault mutants, shapes outside the guards
     cases = [wf_case("%d/%s/wf/%d" % (seed, pid, i)) for i in range(n)]
     cases += [wf_outside_guard("%d/%s/out/%d" % (seed, pid, i)) for i in range(max(10, n // 5))]
+    cases += [nested_array_case("%d/%s/nested/%d" % (seed, pid, i)) for i in range(max(21, n // 5))]
     plan = fault_plan(pid, tier, seed, max(1, n // 60))
     cases += [fault_case(s, f, pk, d) for s, f, pk, d in plan]
     stats["generated"] += len(cases)
@@ -982,7 +1101,8 @@ def _drive_one(args):
 def near_valid_case(seed_str):
     """near-valid variants: self / mutual recursion, zero limits, undeclared limit variables"""
     rng = random.Random(seed_str)
-    which = rng.choice(["F19a", "F19b", "F19c", "F19d", "zero_limit", "F04e", "F05d", "F18f", "zero_parloop"])
+    which = rng.choice(["F19a", "F19b", "F19c", "F19d", "F19e", "F19f", "F19g", "F19e", "F19f", "zero_limit", "F04e", "F05d",
+                        "F18f", "zero_parloop"])
     if which in ("zero_limit", "zero_parloop"):
         prog = faults.with_support(gen_check.WGen(rng, gen_check.Config(runtime_safe=True)).gen_program())
         prod = next(t for t in prog["tasks"] if t["name"] == "productionTask")
@@ -1002,6 +1122,129 @@ def near_valid_case(seed_str):
     return c
 
 
+# ---- guards evaluated at run time: the branch taken is the arithmetic / logical value ---------
+def _eval_guard(e, val):
+    from fractions import Fraction
+    k = e[0]
+    if k == "num":
+        return Fraction(e[1])
+    if k == "bool":
+        return e[1]
+    if k == "path":
+        return val
+    if k == "not":
+        return not _eval_guard(e[1], val)
+    if k == "paren":
+        return _eval_guard(e[1], val)
+    a, b = _eval_guard(e[2], val), _eval_guard(e[3], val)
+    return {"<": lambda: a < b, "<=": lambda: a <= b, ">": lambda: a > b, ">=": lambda: a >= b,
+            "==": lambda: a == b, "!=": lambda: a != b, "And": lambda: bool(a and b), "Or": lambda: bool(a or b),
+            "+": lambda: a + b, "-": lambda: a - b, "*": lambda: a * b, "/": lambda: a / b}[e[1]]()
+
+
+def guard_branch_case(seed_str):
+    """two tasks use the SAME variable and attribute spelling for a boolean and for a number; both
+    read it in a Condition whose branches start different services; the values handed out by the
+    execution engine are chosen here, so the branch each Condition has to take is known"""
+    from fractions import Fraction
+    rng = random.Random(seed_str)
+    var = rng.choice(["s", "r", "state"])
+    attr = rng.choice(["level", "val", "ok"])
+    nested = rng.random() < 0.3
+    pth = ("path", var, ([("f", "inner")] if nested else []) + [("f", attr)])
+    bool_guards = [pth, ("not", pth), ("bin", "==", pth, ("bool", True)), ("bin", "And", pth, ("bool", True)),
+                   ("bin", "Or", ("bool", False), pth)]
+    num_guards = [("bin", ">", pth, ("num", Fraction(1))),
+                  ("bin", "<=", ("bin", "-", ("bin", "*", pth, ("num", Fraction(2))), ("num", Fraction(1))), ("num", Fraction(0))),
+                  ("bin", "==", pth, ("num", Fraction(1, 2))), ("bin", ">=", ("bin", "+", pth, ("num", Fraction(1))), ("num", Fraction(3))),
+                  ("bin", "!=", pth, ("num", Fraction(1))), ("bin", "<", pth, ("num", Fraction(0)))]
+    gb = gen_check.fix_parens(rng.choice(bool_guards))
+    gn = gen_check.fix_parens(rng.choice(num_guards))
+    vb = rng.random() < 0.5
+    vn = rng.choice([Fraction(0), Fraction(1), Fraction(-1), Fraction(1, 2), Fraction(2), Fraction(3)])
+    NUM, BOOL = ("plain", "number"), ("plain", "boolean")
+    structs = [{"name": "Flags", "attrs": [(attr, BOOL)]}, {"name": "Tank", "attrs": [(attr, NUM)]}]
+    tb, tn = "Flags", "Tank"
+    if nested:
+        structs += [{"name": "WFlags", "attrs": [("inner", ("plain", "Flags"))]},
+                    {"name": "WTank", "attrs": [("inner", ("plain", "Tank"))]}]
+        tb, tn = "WFlags", "WTank"
+
+    def task(name, sname, guard, yes, no):
+        return {"name": name, "ins": [], "outs": [],
+                "body": [("service", "Read" + name, [], [(var, ("plain", sname))]),
+                         ("cond", guard, [("service", yes, [], [])], [("service", no, [], [])])]}
+    order = ["checkFlags", "checkTank"]
+    if rng.random() < 0.35:
+        order.reverse()
+    prog = {"structs": structs,
+            "tasks": [{"name": "productionTask", "ins": [], "outs": [], "body": [("call", t, [], []) for t in order]},
+                      task("checkFlags", tb, gb, "FlagsYes", "FlagsNo"), task("checkTank", tn, gn, "TankYes", "TankNo")]}
+    lm = {}
+    text = gen_check.render(prog, None, lm)
+    expect = sorted(["FlagsYes" if _eval_guard(gb, vb) else "FlagsNo", "TankYes" if _eval_guard(gn, vn) else "TankNo"])
+    return {"prog": prog, "text": text, "lm": lm,
+            "meta": {"family": "guard-branch", "seed": seed_str, "expect": expect, "attr": attr, "nested": nested,
+                     "values": {"checkFlags": vb, "checkTank": [vn.numerator, vn.denominator]}}}
+
+
+def drive_guard_branch(args):
+    """-> dict(exc, branches): the Yes/No services that were started"""
+    text, meta = args
+    import contextlib
+    import io
+    from fractions import Fraction
+    from pfdl_scheduler.scheduler import Scheduler
+    from pfdl_scheduler.scheduling.event import Event
+    from pfdl_scheduler.model.struct import Struct
+    started, pending = [], []
+    vals = meta["values"]
+
+    def var(name, ctx):
+        v = vals[ctx.task.name]
+        if isinstance(v, list):
+            q = Fraction(v[0], v[1])
+            v = int(q) if q.denominator == 1 else float(q)
+        leaf = Struct(attributes={meta["attr"]: v})
+        return Struct(attributes={"inner": leaf}) if meta["nested"] else leaf
+
+    def on_ss(api):
+        started.append(api.service.name)
+        pending.append(api.uuid)
+    try:
+        with contextlib.redirect_stdout(io.StringIO()):
+            s = Scheduler(text, True, False)
+            if not s.pfdl_file_valid:
+                return {"exc": "invalid", "branches": []}
+            s.register_callback_service_started(on_ss)
+            s.register_variable_access_function(var)
+            s.start()
+            n = 0
+            while pending and n < 50:
+                n += 1
+                s.fire_event(Event("service_finished", {"service_uuid": pending.pop(0)}))
+    except Exception as e:  # noqa: BLE001
+        return {"exc": type(e).__name__, "branches": sorted(x for x in started if x.endswith(("Yes", "No")))}
+    return {"exc": None, "branches": sorted(x for x in started if x.endswith(("Yes", "No")))}
+
+
+def guard_branch_slice(pid, n, seed, workdir, rep, stats):
+    """usable from any property's slice (C09 here; C13 can call it the same way): returns nothing,
+    records violations through rep"""
+    cases = [guard_branch_case("%d/%s/branch/%d" % (seed, pid, i)) for i in range(n)]
+    with ProcessPoolExecutor(max_workers=8, initializer=_init_worker, initargs=(workdir,)) as ex:
+        results = list(ex.map(drive_guard_branch, [(c["text"], c["meta"]) for c in cases], chunksize=4))
+    for c, r in zip(cases, results):
+        stats["generated"] += 1
+        stats["family:guard-branch"] += 1
+        if r["exc"] is not None or r["branches"] != c["meta"]["expect"]:
+            p = payload(pid, c, "C13-branch", "branches taken %s, arithmetic/logical value of the guards says %s (%s)"
+                        % (r["branches"], c["meta"]["expect"], r["exc"]))
+            rep.violation(p)
+        else:
+            stats["branch_as_expected"] += 1
+
+
 RUN_SHAPES = [("D12b-guard-type-unchecked", "sh_bad_guard", True)]
 
 
@@ -1011,6 +1254,9 @@ def slice_C09(pid, cfg, tier, seed, workdir, rep, stats, findings):
     rs = gen_check.Config(runtime_safe=True)
     cases = [wf_case("%d/%s/wf/%d" % (seed, pid, i), cfg=rs) for i in range(n)]
     cases += [near_valid_case("%d/%s/near/%d" % (seed, pid, i)) for i in range(max(18, n // 3))]
+    # near-valid: indexed array paths in guards and limits (the scheduler cannot evaluate them)
+    for i, f in enumerate(sorted(faults.WF_BUT_REJECTED) * max(2, n // 60)):
+        cases.append(fault_case("%d/%s/idx/%s/%d" % (seed, pid, f, i), f, faults.POS_KINDS[i % len(faults.POS_KINDS)], i % 3))
     for rnd in range(max(1, n // 240)):
         cases += [nesting_case(co, inn, "%d/%s/nest/%s/%s/%d" % (seed, pid, co, inn, rnd))
                   for co in CONTAINERS for inn in INNER]
@@ -1049,6 +1295,8 @@ def slice_C09(pid, cfg, tier, seed, workdir, rep, stats, findings):
             distinct.add(c["text"])
             if len(samples) < 3 and r["calls"] > 3:
                 samples.append({"program": c["text"], "completions": r["calls"], "result": "order completed"})
+    # guards over values of the execution engine: same spelling, different types in two tasks
+    guard_branch_slice(pid, max(24, n // 4), seed, workdir, rep, stats)
     stats["_distinct"] = distinct
     return samples
 
@@ -1069,14 +1317,22 @@ def replay(pid, cfg, p, workdir):
         r = _fuzz_one((p.get("fuzz_kind", "replay"), p["text"]))
         return {"fails": bool(r["why"]), "why": r["why"] or "monitor holds"}
     c = {"prog": p["prog"], "text": p["program_text"], "lm": lm_from_payload(p), "meta": p.get("meta", {})}
-    evaluate([c], workdir, tag="replay")
     mon = (p.get("monitors") or {}).get(pid) or p.get("monitor")
+    if mon == "C13-branch":      # a run-time monitor: no validator model involved
+        r = drive_guard_branch((c["text"], c["meta"]))
+        bad = r["exc"] is not None or r["branches"] != c["meta"]["expect"]
+        return {"fails": bad, "why": str(r)}
+    evaluate([c], workdir, tag="replay")
     if c["diff"] and c["model"]["status"] not in ("fuel", "unsupported"):
         return {"fails": True, "why": "correspondence: " + c["diff"]}
     if mon == "C09":
         r = drive_accepted(c["text"], c["prog"], c["meta"].get("seed", ""))
         bad = r["where"] != "invalid" and (r["exc"] is not None or not r["completed"])
         return {"fails": bad, "why": str({k: v for k, v in r.items() if k != "tb"})}
+    if mon == "C13-branch":
+        r = drive_guard_branch((c["text"], c["meta"]))
+        bad = r["exc"] is not None or r["branches"] != c["meta"]["expect"]
+        return {"fails": bad, "why": str(r)}
     if mon == "C16-start":
         w = no_order_for_invalid(c["text"])
         return {"fails": bool(w), "why": w or "monitor holds"}
